@@ -199,6 +199,32 @@ impl From<SimplifiedAdf> for Adf {
 
 type SimplifiedAdfOpt = OptionWithError<SimplifiedAdf>;
 
+/// Marks a task as running for as long as it lives; removes the entry again when dropped,
+/// also when the task body panics.
+struct RunningGuard {
+    app_state: web::Data<AppState>,
+    info: RunningInfo,
+}
+
+impl RunningGuard {
+    fn new(app_state: web::Data<AppState>, info: RunningInfo) -> Self {
+        app_state
+            .currently_running
+            .lock()
+            .unwrap()
+            .insert(info.clone());
+        Self { app_state, info }
+    }
+}
+
+impl Drop for RunningGuard {
+    fn drop(&mut self) {
+        if let Ok(mut running) = self.app_state.currently_running.lock() {
+            running.remove(&self.info);
+        }
+    }
+}
+
 #[derive(Deserialize, Serialize)]
 pub(crate) struct AdfProblem {
     pub(crate) name: String,
@@ -404,11 +430,7 @@ async fn add_adf_problem(
                 task: Task::Parse,
             };
 
-            app_state
-                .currently_running
-                .lock()
-                .unwrap()
-                .insert(running_info.clone());
+            let _running = RunningGuard::new(app_state, running_info);
 
             #[cfg(feature = "mock_long_computations")]
             std::thread::sleep(Duration::from_secs(20));
@@ -433,12 +455,6 @@ async fn add_adf_problem(
 
                 (SimplifiedAdf::from(lib_adf), ac_and_graph)
             });
-
-            app_state
-                .currently_running
-                .lock()
-                .unwrap()
-                .remove(&running_info);
 
             result
         }),
@@ -564,11 +580,7 @@ async fn solve_adf_problem(
     let acs_and_graphs_fut = timeout(
         COMPUTE_TIME,
         spawn_blocking(move || {
-            app_state
-                .currently_running
-                .lock()
-                .unwrap()
-                .insert(running_info.clone());
+            let _running = RunningGuard::new(app_state, running_info);
 
             #[cfg(feature = "mock_long_computations")]
             std::thread::sleep(Duration::from_secs(20));
@@ -596,12 +608,6 @@ async fn solve_adf_problem(
                     graph: DoubleLabeledGraph::from_adf_and_ac(&adf, Some(ac)),
                 })
                 .collect();
-
-            app_state
-                .currently_running
-                .lock()
-                .unwrap()
-                .remove(&running_info);
 
             acs_and_graphs
         }),
